@@ -266,3 +266,15 @@ def run_refs_case(eng, refs, defs, cfg, cli, toks, nroots=0, extra_args=None):
     m = eng.model([line])[0]
     return {"rc": rc, "out": out, "err": err, "marks": marks, "model": m, "model_request": line, "cli": args,
             "config": cfg, "refs": [r.decode("latin1") for r in refs]}
+
+
+def real_safe_refs(refs):
+    """Names that can coexist in a real repository (no directory/file conflicts, valid format)."""
+    out = []
+    for n in sorted(refs):
+        if any(m.startswith(n + b"/") for m in refs):
+            continue
+        if n not in REFPOOL:
+            continue
+        out.append(n)
+    return out
